@@ -126,6 +126,17 @@ end Bycycle
 
 namespace Bycycle
 
+/-- `(min_n_cycles, min_burst_duration)` as passed to the sample-wise detector
+(features/burst.py: `if min_burst_duration is not None: min_n_cycles = None`). -/
+def detectorArgs (minN : Rat) (dur : Option Rat) : Option Rat × Option Rat :=
+  if Slots.durationTest.eval dur then (none, dur) else (some minN, dur)
+
+/-- a given minimum duration (including 0 s) replaces the cycle count; otherwise the cycle count is used. -/
+def detectorArgsSpec (minN : Rat) (dur : Option Rat) : Option Rat × Option Rat :=
+  match dur with
+  | some d => (none, some d)
+  | none => (some minN, none)
+
 /-- argument guards of `compute_burst_fraction` (features/burst.py:360-362):
 `fs ∈ [0, ∞)`, `amp_threshes[0] ∈ [0, amp_threshes[1]]`, `amp_threshes[1] ∈ [amp_threshes[0], ∞)`. -/
 def burstFractionGuard (fs lo hi : Rat) : Except Err Unit :=
